@@ -62,6 +62,17 @@ def run(ctx):
     from odf import easyliststyle as E
     from odf.opendocument import OpenDocumentText
     d = ctx.get_driver()
+    # delimiters of several characters, and a last specification that ends in one of the delimiter's characters (the string is not
+    # ambiguous: the delimiter as a whole occurs only between the specifications)
+    for specs, dl in ((['*', '1:'], '::'), (['1.', '*', 'x-'], '->'), (['a)', 'i>'], '>>'), (['1.', 'A.', '.'], '..,'), (['-', 'a:', '1,'], ':,'), (['*'], '**-'), (['1)', 'o', 'a|'], '||')):
+        for show in (True, False):
+            ctx.oracle_cases += 1
+            want = describe(E.styleFromList('D', specs, '0.5cm', show))
+            try: got = describe(E.styleFromString('D', dl.join(specs), dl, '0.5cm', show))
+            except Exception as e: got = ['Raise', type(e).__name__]
+            if dl.join(specs).split(dl) != specs: raise RuntimeError('harness: ambiguous directed string %r' % (dl.join(specs),))
+            if got != want:
+                ctx.violation('string-form-differs', {'specs': specs, 'delimiter': dl, 'spacing': '0.5cm', 'show_all': show}, got, want, {'delimiter': dl})
     N = 600 if ctx.quick else 12000
     for i in range(N):
         specs = [rand_spec(ctx.rng) for _ in range(ctx.rng.randint(1, 10))]
